@@ -96,6 +96,18 @@ fn one<const D: usize>(id: &str, rng: &mut Rng, out: &mut Out, foreign: CellKey,
             if t1 != t2 { stats_same = false; }
             lines.push(format!("lr q{qi} {hn} {t1}"));
         }
+        // hook H4: cap the walk so that the exhaustive-scan fallback answers (the model's fuel)
+        for (hn, hk) in hints.iter().take(2) {
+            for budget in [0usize, 1, 3] {
+                delaunay::verif::set_walk_budget(Some(budget));
+                let r = catch(|| locate_with_stats(w.dt.tds(), &kernel, &p, *hk).map(|(r, st)| (r, st.fallback.is_some())).map_err(|e| tri::err_kind(&format!("{e:?}"))));
+                delaunay::verif::set_walk_budget(None);
+                let fell_back = matches!(&r, Ok(Ok((_, true))));
+                let r1 = match r { Ok(Ok((x, _))) => Ok(Ok(x)), Ok(Err(e)) => Ok(Err(e)), Err(m) => Err(m) };
+                let t = res_tok(&mut w, &r1);
+                lines.push(format!("lr q{qi} {hn}@b{budget}{} {t}", if fell_back { "s" } else { "w" }));
+            }
+        }
     }
     let mut ids: Ids = std::mem::take(&mut w.ids);
     tri::export(&w.dt, &mut ids, out);
